@@ -32,22 +32,56 @@ def _init_worker(modname, scratch_root):
     _SCRATCH = scratch_root
 
 
+class CaseTimeout(Exception):
+    pass
+
+
+def _alarm(signum, frame):
+    raise CaseTimeout()
+
+
+CASE_TIMEOUT = int(os.environ.get('VERIF_CASE_TIMEOUT', '300'))
+
+
 def _run_one(args):
     idx, case = args
     t0 = time.time()
+    import signal
+    try:
+        signal.signal(signal.SIGALRM, _alarm)
+        signal.alarm(int(getattr(_MOD, 'CASE_TIMEOUT', CASE_TIMEOUT)))
+    except Exception:
+        pass
+    try:
+        r = _run_one_inner(case)
+    finally:
+        try:
+            signal.alarm(0)
+        except Exception:
+            pass
+    r.index = idx
+    r.wall = time.time() - t0
+    return r
+
+
+def _run_one_inner(case):
     try:
         mod = importlib.import_module(case['_mod']) if isinstance(case, dict) and '_mod' in case else _MOD
         r = mod.run_case(case)
         if not isinstance(r, CaseResult):
             r = CaseResult(False, detail='harness returned %r' % (r,), violates=None)
+    except CaseTimeout:
+        # the implementation (or the harness) did not come back, e.g. a reader that never reaches the end of a file:
+        # reported as a disagreement with the case as replay, never silently waited for
+        common.close_driver()
+        r = CaseResult(False, detail='case did not finish within %d s (implementation or harness hangs on this input)'
+                       % CASE_TIMEOUT, violates=None)
     except common.DriverError as e:
         r = CaseResult(False, detail='driver error: %s' % e, violates=None)
     except Exception as e:
         r = CaseResult(False, detail='exception in harness/implementation: %s\n%s' % (e, traceback.format_exc()[-3000:]),
                        violates=None)
         r.exception = True
-    r.index = idx
-    r.wall = time.time() - t0
     return r
 
 
